@@ -26,6 +26,7 @@ FLOW_THOROUGH = FLOW_QUICK + [("MC_flow.tla", "MC_cover_q3.cfg", 4, "4g", 600), 
 FLOW_PROPS = ["C01", "C02", "C03", "C04", "C05", "C06", "C07", "C11", "C12", "C13", "C16", "C18"]
 PLAN = {p: {"quick": FLOW_QUICK, "thorough": FLOW_THOROUGH} for p in FLOW_PROPS}
 TIME_QUICK = [("Timers.tla", "MC_time_%d.cfg" % k, 2, "3g", 600) for k in (0, 1000, 2000, 3000, 5000, 10000, 11000, 60000)]
+TIME_QUICK += [("Timers.tla", "MC_time_re_a.cfg", 2, "3g", 600), ("Timers.tla", "MC_time_re_b.cfg", 2, "3g", 600)]
 TIME_THOROUGH = TIME_QUICK + [("Timers.tla", "MC_time_%d.cfg" % k, 4, "6g", 1800) for k in (6000, 9000)]
 # filled in by the other specification modules as they are added
 READER = [("MC_reader.tla", "MC_reader.cfg", 4, "3g", 600)]
